@@ -23,7 +23,7 @@ type c15Case struct {
 
 func c15Sizes(tier string) (units, per int) {
 	if tier == "thorough" {
-		return 3000, 60
+		return 40000, 60
 	}
 	return 400, 48
 }
